@@ -9,12 +9,17 @@ MCIds3 == {1, 2, 3}
 MCWorkerMaps3 == { f \in [MCIds3 -> MCWorkers] : f[1] = 0 }
 MCSharedOnly == { [i \in MCIds |-> 0] }
 C(k, e, o) == [k |-> k, e |-> e, o |-> o, end |-> -1]
+Un(P, o) == [k |-> "unit", e |-> P, o |-> o, end |-> -1]
 U(e, o, end) == [k |-> "until", e |-> e, o |-> o, end |-> end]
 \* U(1,0,2): occurrences 1 and 2, then the schedule has ended
 MCCfgQuick == { C("every", 1, 0), C("every", 2, 1), C("cron", 3, 0), U(1, 0, 2) }
 \* (a negative offset runs the task before its scheduled time: Schedulable.Offset allows it)
 MCCfgThorough == { C("every", 1, 0), C("every", 1, 1), C("every", 2, 1), C("every", 3, 0), C("cron", 2, 0), C("cron", 3, 1), C("every", 2, -1), C("cron", 3, -1),
                    \* ending schedules; in the generator `end` is relative to now (SchedulerSim.Concrete)
-                   U(1, 0, 2), U(2, 1, 3), U(3, -1, 5) }
+                   U(1, 0, 2), U(2, 1, 3), U(3, -1, 5),
+                   \* "@every" with calendar units (1d, 1w, 1d12h, 1mo, 1y): scheduled from the aligned last time
+                   Un(86400, 0), Un(604800, 1), Un(129600, 0), Un(2678400, 0) }
+                   \* ("1y" is only checked for its alignment (trace line Aligned): cron steps a calendar year, 365 d from
+                   \*  2023-02-06, while the alignment period is the 366 d options.Duration gives at the end of 2023)
 MCCfgLive == { C("every", 1, 0), C("cron", 2, 1), U(1, 0, 2) }
 =============================================================================
